@@ -1,6 +1,7 @@
 import RbdlProofs.Lemmas.L17Body
 import RbdlProofs.Lemmas.L17Asm
 import RbdlProofs.Lemmas.L17Vel
+import RbdlProofs.Lemmas.L17Ang
 import Rbdl.LinAlg
 /-
   C17: concrete instances over `Rat` for the satisfiability examples and the witnesses.
@@ -90,13 +91,22 @@ theorem csFar_witness : csFar.1 = true ∧ csFar.2.1 = 0 ∧ csFar.2.2.errorNorm
 theorem csHere_ok : csHere.1 = true ∧ csHere.2.1 = 0 ∧ csHere.2.2.errorNorm2 = 0 := by decide +kernel
 theorem csSide_fail : csSide.1 = false ∧ csSide.2.1 = 5 := by decide +kernel
 
-/-- **witness (half turn)**: the orientation differs from the target by a rotation of π, the modelled
-    `CalcAngularVelocityfromMatrix` returns 0 for it, the solver reports success in pass 0 with
-    `error_norm = 0` and returns the initial guess -/
-theorem csTurn_witness : csTurn.1 = true ∧ csTurn.2.1 = 0 ∧ csTurn.2.2.errorNorm2 = 0 ∧
-    csTurn.2.2.Q 0 = 0 ∧
-    (calcBodyWorldOrientation m1 w1 (mkQS trig0 csTurn.2.2.Q) 1 true).2 = M3.one ∧
+/-- **half turn, repaired routine**: the orientation differs from the target by a rotation of π about z;
+    `CalcAngularVelocityfromMatrix` returns `π e_z` (here `π := 3`), so the first pass sees
+    `error_norm² = π² = 9` and the configuration is not reported as solved in pass 0 -/
+def csTurn1 := inverseKinematicsCS diagSolve transc0 trig0 m1 w1 Q0 { setTurn with maxSteps := 1 } 0 0
+theorem csTurn_facts : angularVelocityFromMatrix transc0 halfTurn = ⟨0, 0, 3⟩ ∧
+    ikcsResidual2 transc0 trig0 m1 w1 setTurn Q0 = 9 ∧ csTurn1.2.2.errorNorm2 = 9 ∧
+    ¬ (csTurn1.1 = true ∧ csTurn1.2.2.Q 0 = 0) ∧
+    (calcBodyWorldOrientation m1 w1 (mkQS trig0 Q0) 1 true).2 = M3.one ∧
     (M3.one : M3 Rat) ≠ halfTurn := by decide +kernel
+
+/-- a general rational unit axis and a `sqrt` that is exact on the squares of its components -/
+def axis221 : V3 Rat := ⟨2/3, 1/3, -2/3⟩
+def transc1 : Transc Rat := ⟨fun x => if x = 4/9 then 2/3 else if x = 1/9 then 1/3 else 0, fun _ _ => 0, 3⟩
+
+theorem halfTurn_isRot : halfTurn.IsRot := by constructor <;> decide +kernel
+theorem halfTurn_eq : halfTurn = halfTurnOf (⟨0, 0, 1⟩ : V3 Rat) := by decide +kernel
 
 /-! #### assembly -/
 
